@@ -26,6 +26,7 @@
 //! Only the field under test may make a frame illegal or large: the other fields are drawn from small legal
 //! values and clamped to legality against the state when the frame is built.
 pub mod cid;
+pub mod dgram;
 pub mod journal;
 pub mod meter;
 pub mod stream;
@@ -64,6 +65,9 @@ pub enum Base {
     PeerNextSeq,
     /// NEW_CONNECTION_ID: the largest Retire Prior To received so far
     PeerRpt,
+    /// NEW_CONNECTION_ID: a sequence number the peer has issued whose frame is still in flight (a gap in what the
+    /// endpoint has received); the next unused sequence number if there is none
+    PeerHeld,
     /// RETIRE_CONNECTION_ID: the next sequence number the endpoint has not issued yet
     LocalNextSeq,
     /// the endpoint's active_connection_id_limit
@@ -82,6 +86,8 @@ pub enum Base {
     FinalSize,
     /// crypto: the largest offset received so far
     CryptoLargest,
+    /// datagram: the payload length at which the frame is exactly the local max_datagram_frame_size
+    DgramMax,
 }
 
 #[derive(Clone, Copy, Debug, Serialize, Deserialize, PartialEq, Eq)]
@@ -166,6 +172,7 @@ pub enum Field {
     FinalSize,
     ErrCode,
     Max,
+    Len,
 }
 
 #[derive(Clone, Debug, Serialize, Deserialize, PartialEq)]
@@ -187,6 +194,8 @@ pub enum Forged {
     MaxStreams { uni: bool, max: Val },
     StreamsBlocked { uni: bool, limit: Val },
     Crypto { offset: Val, len: u16 },
+    /// DATAGRAM with a payload of `len` bytes, with or without the Length field
+    Datagram { len: Val, with_len: bool },
 }
 
 impl Forged {
@@ -207,6 +216,7 @@ impl Forged {
             Forged::MaxStreams { .. } => "max_streams",
             Forged::StreamsBlocked { .. } => "streams_blocked",
             Forged::Crypto { .. } => "crypto",
+            Forged::Datagram { .. } => "datagram",
         }
     }
 
@@ -227,6 +237,7 @@ impl Forged {
             (_, Field::FinalSize) => "final_size",
             (_, Field::ErrCode) => "error_code",
             (_, Field::Max) => "maximum",
+            (_, Field::Len) => "length",
         };
         if matches!(f, Field::Jump) { n.to_string() } else { format!("{}.{}", self.frame_name(), n) }
     }
@@ -260,6 +271,7 @@ impl Forged {
             (Forged::MaxStreamData { max, .. }, Field::Max)
             | (Forged::MaxData { max }, Field::Max)
             | (Forged::MaxStreams { max, .. }, Field::Max) => Some(max),
+            (Forged::Datagram { len, .. }, Field::Len) => Some(len),
             (Forged::StreamDataBlocked { limit, .. }, Field::Max)
             | (Forged::DataBlocked { limit }, Field::Max)
             | (Forged::StreamsBlocked { limit, .. }, Field::Max) => Some(limit),
@@ -306,6 +318,7 @@ pub enum Hist {
     Cid(cid::CidHist),
     Stream(stream::StreamHist),
     Crypto(stream::CryptoHist),
+    Dgram(dgram::DgramHist),
 }
 
 impl Hist {
@@ -315,6 +328,7 @@ impl Hist {
             Hist::Cid(h) => h.ops.len(),
             Hist::Stream(h) => h.ops.len(),
             Hist::Crypto(h) => h.ops.len(),
+            Hist::Dgram(h) => h.ops.len(),
         }
     }
     pub fn is_empty(&self) -> bool {
@@ -327,6 +341,7 @@ impl Hist {
             Hist::Cid(h) => h.ops.truncate(n),
             Hist::Stream(h) => h.ops.truncate(n),
             Hist::Crypto(h) => h.ops.truncate(n),
+            Hist::Dgram(h) => h.ops.truncate(n),
         }
         c
     }
@@ -337,6 +352,7 @@ impl Hist {
             Hist::Cid(h) => drop(h.ops.remove(i)),
             Hist::Stream(h) => drop(h.ops.remove(i)),
             Hist::Crypto(h) => drop(h.ops.remove(i)),
+            Hist::Dgram(h) => drop(h.ops.remove(i)),
         }
         c
     }
@@ -419,6 +435,7 @@ pub fn probe(case: &Case, forged: &Forged) -> ProbeResult {
             Hist::Cid(h) => cid::probe(h, forged, case.seed),
             Hist::Stream(h) => stream::probe(h, forged),
             Hist::Crypto(h) => stream::probe_crypto(h, forged),
+            Hist::Dgram(h) => dgram::probe(h, forged),
         }
     })
 }
@@ -746,6 +763,7 @@ impl Engine for ByzSim {
             "qbase::flow::FlowController",
             "qbase::param::{ArcParameters, ClientParameters, ServerParameters}",
             "qrecovery::crypto::CryptoStream (incoming, reader)",
+            "qdatagram::DatagramFlow (incoming, reader)",
             "tokio paused clock",
         ]
     }
@@ -931,6 +949,7 @@ pub fn target_name(f: &Forged) -> &'static str {
         Forged::RetireCid { .. } => "local-cids.recv_retire_cid",
         Forged::SetLimit { .. } => "local-cids.set_limit",
         Forged::Crypto { .. } => "crypto.recv_frame",
+        Forged::Datagram { .. } => "datagram.recv_datagram",
         Forged::MaxData { .. } | Forged::DataBlocked { .. } => "flow",
         _ => "streams",
     }
@@ -1053,7 +1072,7 @@ pub fn generate(seed: u64) -> Case {
         if which < 14 {
             let field = if f.one_in(2) { Field::Seq } else { Field::Rpt };
             let forged = match field {
-                Field::Seq => Forged::NewCid { seq: draw_val(&mut f, &[Base::PeerNextSeq, Base::PeerRpt]), rpt: side_val(&mut f, &[Base::PeerRpt]) },
+                Field::Seq => Forged::NewCid { seq: draw_val(&mut f, &[Base::PeerNextSeq, Base::PeerRpt, Base::PeerHeld, Base::PeerHeld]), rpt: side_val(&mut f, &[Base::PeerRpt]) },
                 _ => {
                     let v = draw_val(&mut f, &[Base::PeerNextSeq, Base::PeerRpt]);
                     // Retire Prior To <= Sequence Number, except when the frame-encoding rule itself is the target
@@ -1064,6 +1083,18 @@ pub fn generate(seed: u64) -> Case {
             return Case { seed, hist: Hist::Cid(hist), forged, field };
         }
         return Case { seed, hist: Hist::Cid(hist), forged: Forged::RetireCid { seq: draw_val(&mut f, &[Base::LocalNextSeq]) }, field: Field::Seq };
+    }
+    if target < 60 {
+        // DATAGRAM frames around the local maximum, both encodings (the values are bounded by what a UDP datagram
+        // carries, so there is no ladder: every draw is a point probe)
+        let hist = dgram::gen_hist(&mut r, n.min(40));
+        let len = match f.below(10) {
+            0 => Val::abs(0),
+            1 => Val::abs(1),
+            2 => Val::abs(f.below(1400)),
+            _ => Val::rel(Base::DgramMax, *f.pick(&[-2i64, -1, 0, 0, 1, 1, 2, 3, 9])),
+        };
+        return Case { seed, hist: Hist::Dgram(hist), forged: Forged::Datagram { len, with_len: f.one_in(2) }, field: Field::Len };
     }
     if target < 93 {
         let hist = stream::gen_hist(&mut r, n);
